@@ -66,6 +66,32 @@ Proof.
     apply in_map_iff. now exists f.
 Qed.
 
+(* ------------------------------------------------------------------ _resolve_lro_type *)
+(* the as-written reading wins whenever it names a message -- also when the package-relative reading names one too;
+   the package-relative reading is used only when the as-written one is unknown; with neither, the as-written key stays *)
+Lemma lro_resolve_fallback_spec : forall files pkg sel,
+  (known files (resolve pkg sel) = true -> resolve_lro files pkg sel = resolve pkg sel) /\
+  (known files (resolve pkg sel) = false -> known files (relative_key pkg sel) = true ->
+     resolve_lro files pkg sel = relative_key pkg sel) /\
+  (known files (resolve pkg sel) = false -> known files (relative_key pkg sel) = false ->
+     resolve_lro files pkg sel = resolve pkg sel) /\
+  (contains dot sel = false -> resolve_lro files pkg sel = relative_key pkg sel) /\
+  (known files (resolve_lro files pkg sel) = known files (resolve pkg sel) || known files (relative_key pkg sel)).
+Proof.
+  intros files pkg sel. unfold resolve_lro.
+  destruct (known files (resolve pkg sel)) eqn:K1; destruct (known files (relative_key pkg sel)) eqn:K2;
+    repeat split; intros; try discriminate; try reflexivity; try (now rewrite K1); try (now rewrite K2);
+    try (unfold resolve in *; match goal with H : contains dot sel = false |- _ => rewrite H in *; try reflexivity end).
+Qed.
+
+(* both readings name a message: the as-written one is chosen *)
+Lemma lro_as_written_wins : forall files pkg sel,
+  contains dot sel = true -> known files sel = true -> known files (relative_key pkg sel) = true ->
+  resolve_lro files pkg sel = sel.
+Proof.
+  intros files pkg sel D K1 K2. unfold resolve_lro, resolve. rewrite D, K1. reflexivity.
+Qed.
+
 (* ------------------------------------------------------------------ the decision table *)
 Lemma ends_with_operation : ends_with OPERATION_SUFFIX OPERATION_TYPE = true.
 Proof. reflexivity. Qed.
@@ -95,8 +121,8 @@ Section Decision.
   Lemma decide_named : forall m oi,
     ends_with OPERATION_SUFFIX (m_output m) = true -> m_opinfo m = Some oi ->
     oi_response oi <> "" -> oi_metadata oi <> "" ->
-    let rk := resolve pkg (oi_response oi) in
-    let mk := resolve pkg (oi_metadata oi) in
+    let rk := resolve_lro files pkg (oi_response oi) in
+    let mk := resolve_lro files pkg (oi_metadata oi) in
     (known files rk = true -> known files mk = true -> decide files pkg m = Lro rk mk) /\
     (known files rk = false -> decide files pkg m = Rejected (ErrUnknownType rk)) /\
     (known files rk = true -> known files mk = false -> decide files pkg m = Rejected (ErrUnknownType mk)).
@@ -116,8 +142,8 @@ Section Decision.
     (forall oi, m_opinfo m = Some oi ->
        ((oi_response oi = "" \/ oi_metadata oi = "") -> decide files pkg m = Rejected ErrMissingType) /\
        (oi_response oi <> "" -> oi_metadata oi <> "" ->
-          let rk := resolve pkg (oi_response oi) in
-          let mk := resolve pkg (oi_metadata oi) in
+          let rk := resolve_lro files pkg (oi_response oi) in
+          let mk := resolve_lro files pkg (oi_metadata oi) in
           (known files rk = true -> known files mk = true -> decide files pkg m = Lro rk mk) /\
           (known files rk = false -> decide files pkg m = Rejected (ErrUnknownType rk)) /\
           (known files rk = true -> known files mk = false -> decide files pkg m = Rejected (ErrUnknownType mk)))).
@@ -135,7 +161,7 @@ Section Decision.
   Lemma lro_accepted_sound : forall m r mt,
     decide files pkg m = Lro r mt ->
     exists oi, m_opinfo m = Some oi /\ oi_response oi <> "" /\ oi_metadata oi <> "" /\
-               r = resolve pkg (oi_response oi) /\ mt = resolve pkg (oi_metadata oi) /\
+               r = resolve_lro files pkg (oi_response oi) /\ mt = resolve_lro files pkg (oi_metadata oi) /\
                In r (universe files) /\ In mt (universe files).
   Proof.
     intros m r mt. unfold decide.
@@ -143,21 +169,24 @@ Section Decision.
     destruct (m_opinfo m) as [oi|]; [|discriminate].
     destruct (is_empty (oi_response oi)) eqn:E1; [discriminate|].
     destruct (is_empty (oi_metadata oi)) eqn:E2; [discriminate|]. simpl.
-    destruct (known files (resolve pkg (oi_response oi))) eqn:K1; [|discriminate]. simpl.
-    destruct (known files (resolve pkg (oi_metadata oi))) eqn:K2; [|discriminate]. simpl.
+    destruct (known files (resolve_lro files pkg (oi_response oi))) eqn:K1; [|discriminate]. simpl.
+    destruct (known files (resolve_lro files pkg (oi_metadata oi))) eqn:K2; [|discriminate]. simpl.
     intro H. inversion H. subst.
     exists oi. repeat split; try (now apply is_empty_false).
     - now apply mem_str_In.
     - now apply mem_str_In.
   Qed.
 
-  (* rejection happens only for the two stated reasons *)
+  (* rejection happens only for the two stated reasons; an unknown type is unknown under BOTH readings and the key
+     reported is the as-written one *)
   Lemma lro_rejected_sound : forall m e,
     decide files pkg m = Rejected e ->
     exists oi, m_opinfo m = Some oi /\
       match e with
       | ErrMissingType => oi_response oi = "" \/ oi_metadata oi = ""
-      | ErrUnknownType k => known files k = false /\ (k = resolve pkg (oi_response oi) \/ k = resolve pkg (oi_metadata oi))
+      | ErrUnknownType k =>
+          exists sel, (sel = oi_response oi \/ sel = oi_metadata oi) /\ k = resolve pkg sel /\
+                      known files (resolve pkg sel) = false /\ known files (relative_key pkg sel) = false
       end.
   Proof.
     intros m e. unfold decide.
@@ -167,10 +196,33 @@ Section Decision.
     { intro H. inversion H. exists oi. split; [reflexivity|]. left. now apply is_empty_true. }
     destruct (is_empty (oi_metadata oi)) eqn:E2; simpl.
     { intro H. inversion H. exists oi. split; [reflexivity|]. right. now apply is_empty_true. }
-    destruct (known files (resolve pkg (oi_response oi))) eqn:K1; simpl.
-    - destruct (known files (resolve pkg (oi_metadata oi))) eqn:K2; simpl; [discriminate|].
-      intro H. inversion H. exists oi. split; [reflexivity|]. split; [exact K2 | now right].
-    - intro H. inversion H. exists oi. split; [reflexivity|]. split; [exact K1 | now left].
+    assert (U : forall sel, known files (resolve_lro files pkg sel) = false ->
+                resolve_lro files pkg sel = resolve pkg sel /\ known files (resolve pkg sel) = false /\
+                known files (relative_key pkg sel) = false).
+    { intros sel. unfold resolve_lro.
+      destruct (known files (resolve pkg sel)) eqn:A; [intro X; congruence|].
+      destruct (known files (relative_key pkg sel)) eqn:B; [intro X; congruence|]. auto. }
+    destruct (known files (resolve_lro files pkg (oi_response oi))) eqn:K1; simpl.
+    - destruct (known files (resolve_lro files pkg (oi_metadata oi))) eqn:K2; simpl; [discriminate|].
+      intro H. inversion H. exists oi. split; [reflexivity|].
+      destruct (U _ K2) as [Q1 [Q2 Q3]]. exists (oi_metadata oi). repeat split; auto.
+    - intro H. inversion H. exists oi. split; [reflexivity|].
+      destruct (U _ K1) as [Q1 [Q2 Q3]]. exists (oi_response oi). repeat split; auto.
+  Qed.
+
+  (* a dotted name that exists relative to the package (a nested message) and not as written is accepted *)
+  Lemma nested_relative_name_accepted : forall m oi,
+    ends_with OPERATION_SUFFIX (m_output m) = true -> m_opinfo m = Some oi ->
+    oi_response oi <> "" -> oi_metadata oi <> "" ->
+    known files (resolve pkg (oi_response oi)) = false -> known files (relative_key pkg (oi_response oi)) = true ->
+    known files (resolve pkg (oi_metadata oi)) = false -> known files (relative_key pkg (oi_metadata oi)) = true ->
+    decide files pkg m = Lro (relative_key pkg (oi_response oi)) (relative_key pkg (oi_metadata oi)).
+  Proof.
+    intros m oi H S R M A1 A2 B1 B2.
+    destruct (decide_named m oi H S R M) as [D _].
+    destruct (lro_resolve_fallback_spec files pkg (oi_response oi)) as [_ [F1 _]].
+    destruct (lro_resolve_fallback_spec files pkg (oi_metadata oi)) as [_ [F2 _]].
+    rewrite (F1 A1 A2), (F2 B1 B2) in D. apply D; assumption.
   Qed.
 End Decision.
 
@@ -296,16 +348,14 @@ Proof.
   repeat constructor.
 Qed.
 
-(* the code as it is: a selector with a dot is never tried relative to the package, so a nested message named the
-   way protobuf scoping allows (Outer.Inner inside the method's own package) is not found *)
-Lemma nested_relative_name_refuted :
-  exists files pkg m,
-    m_output m = OPERATION_TYPE /\
-    m_opinfo m = Some (mkOp "Outer.Inner" "Outer.Inner") /\
-    In (pkg ++ "." ++ "Outer.Inner") (universe files) /\
-    decide files pkg m = Rejected (ErrUnknownType "Outer.Inner").
-Proof.
-  exists [mkFile "a/b.proto" "a.b" [] ["a.b.Outer"; "a.b.Outer.Inner"]], "a.b",
-         (mkMethod "Start" OPERATION_TYPE (Some (mkOp "Outer.Inner" "Outer.Inner"))).
-  repeat split; try reflexivity. simpl. right. now left.
-Qed.
+(* the former finding, now accepted: Outer.Inner inside the method's own package; and precedence when a top-level
+   package Outer with a message Inner exists as well: the name as written wins *)
+Example nested_relative_example :
+  let f1 := [mkFile "a/b.proto" "a.b" [] ["a.b.Outer"; "a.b.Outer.Inner"]] in
+  let f2 := (mkFile "outer.proto" "Outer" [] ["Outer.Inner"] :: f1)%list in
+  let m := mkMethod "Start" OPERATION_TYPE (Some (mkOp "Outer.Inner" "Outer.Inner")) in
+  decide f1 "a.b" m = Lro "a.b.Outer.Inner" "a.b.Outer.Inner" /\
+  decide f2 "a.b" m = Lro "Outer.Inner" "Outer.Inner" /\
+  known f1 (resolve "a.b" "Outer.Inner") = false /\ known f1 (relative_key "a.b" "Outer.Inner") = true /\
+  decide f1 "a.b" (mkMethod "Start" OPERATION_TYPE (Some (mkOp "Outer.Nope" "Outer.Inner"))) = Rejected (ErrUnknownType "Outer.Nope").
+Proof. repeat split. Qed.
